@@ -88,7 +88,7 @@ pub fn config_text(o: &Opts, as_json: bool) -> String {
     if !name.is_empty() {
         generate.insert("name".into(), name.into());
     }
-    let cfg = json!({"schema": "./schema.graphql", "documents": "./*.graphql", "extensions": {"nitrogql": {"generate": generate}}});
+    let cfg = json!({"schema": "./schema.graphqls", "documents": "./**/*.graphql", "extensions": {"nitrogql": {"generate": generate}}});
     if as_json {
         serde_json::to_string_pretty(&cfg).unwrap()
     } else {
@@ -225,7 +225,38 @@ fn case_fn_mode(case: &mut Case, c12_mode: bool) -> CaseResult {
     }
     let mut topts = OperationTypePrinterOptions::from_config(&config);
     topts.schema_source = "./schema.js".into();
-    let dts = gen_operation_dts(sdoc, &os.files[0].doc, topts, None, &detail)?.buffer;
+    let mut dts = gen_operation_dts(sdoc, &os.files[0].doc, topts, None, &detail)?.buffer;
+    // one case in four: the declaration file comes from the built CLI instead, regenerated in a directory that
+    // already holds the output of another configuration (users change options and run `generate` again)
+    if !c12_mode && std::path::Path::new(vh::cli::CLI_BIN).exists() && case.ch.chance(1, 4) {
+        use vh::cli::{run_cli, Project};
+        static BASE: std::sync::OnceLock<PathBuf> = std::sync::OnceLock::new();
+        let base = BASE.get_or_init(|| vh::runner::work_dir("c14"));
+        let proj = Project::new(base);
+        let other = config_text(&gen_opts(&mut case.ch), false);
+        proj.write("schema.graphqls", &schema_text);
+        for f in &files {
+            proj.write(f.0.trim_start_matches("/p/"), &f.2);
+        }
+        proj.write("graphql.config.yaml", &other);
+        let r1 = run_cli(&proj.dir, &["generate", "--output-format", "json"]);
+        // backdate nothing, change only the configuration
+        proj.write("graphql.config.yaml", &if as_json { config_text(&opts, false) } else { cfg_text.clone() });
+        let r2 = run_cli(&proj.dir, &["generate", "--output-format", "json"]);
+        let decl = match opts.mode.unwrap_or("with-loader-ts-5.0") {
+            "with-loader-ts-5.0" => "main.d.graphql.ts",
+            "with-loader-ts-4.0" => "main.graphql.d.ts",
+            _ => "main.graphql.ts",
+        };
+        let text = proj.read(decl);
+        let d2 = json!({"detail": detail, "first_config": other, "first_run": r1.stdout.chars().take(300).collect::<String>(), "second_run": r2.stdout.chars().take(300).collect::<String>(), "stderr": r2.stderr.chars().take(300).collect::<String>()});
+        proj.remove();
+        if r1.crashed() || r2.crashed() || r1.status != Some(0) || r2.status != Some(0) {
+            return Err(Failure::new("cli-generate-failed", format!("generate exits {:?} then {:?} on a valid project", r1.status, r2.status), d2));
+        }
+        dts = text.ok_or_else(|| Failure::new("declaration-file-missing", format!("{decl} was not written"), d2))?;
+        case.label("declaration-from-cli-after-config-change");
+    }
 
     // loader side: same config text
     if !abi::load_config(&cfg_text) {
@@ -402,6 +433,7 @@ pub fn run(env: &Env) -> i32 {
     );
     rep.assume("the k-th constant of the declaration file stands for the k-th definition of the resolved document (both printers share one traversal)");
     rep.campaign("configs", env.cases(15_000, 150_000), (300, 1500), case_fn);
+    let _ = std::fs::remove_dir_all(format!("{}/work/c14-{}", vh::runner::VERIF, std::process::id()));
     rep.finish()
 }
 
